@@ -15,3 +15,18 @@ def s(v, default="x"):
 
 def strs(seq):
     return tuple(s(x) for x in (seq or []))
+
+
+# ---- exploration statistics of the bounded native checks (reported in the evidence file) -----------------------
+STATS = {"evaluations": 0, "distinct": 0, "samples": []}
+
+
+def count(evaluations=0, distinct=0):
+    """evaluations: comparisons of the real code's answer with the reference; distinct: distinct non-trivial inputs"""
+    STATS["evaluations"] += evaluations
+    STATS["distinct"] += distinct
+
+
+def sample(obj):
+    if len(STATS["samples"]) < 4:
+        STATS["samples"].append(obj)
